@@ -31,6 +31,7 @@ import PercevalModel.Lemmas.C08
 import PercevalModel.Lemmas.C08Tree
 import PercevalModel.Lemmas.C08MinP
 import PercevalModel.Lemmas.C08Heralds
+import PercevalModel.Lemmas.C08Leaf
 import PercevalModel.Model.C08Glue
 import Mathlib.Algebra.Order.Field.Rat
 
@@ -732,6 +733,109 @@ theorem mask_before_detectors_unsound :
   · simp [probsTail, selectHeralds, heraldsOk, simulate, simulateRaw, hty, simGeneral, simState, stateDist,
       listTensor, AnyDet.kernel, AnyDet.detect, hd, DetOut.toDist, belowFilter, addP, bump, normalize, mass]
     norm_num
+
+/-! ## the beam-splitter tree from the Fock amplitude specification
+(`BSLayeredPPNR.create_circuit()` + the amplitude `perm(U[t|s])/√(∏s!∏t!)`; replaces the former ASSUMPTION that
+the backend returns the multinomial leaf law) -/
+section fockTree
+
+open PM.Fock
+
+/-- **amplitude from one occupied input mode.** For every `m × m` matrix over every commutative ring, every
+photon number `n` and every output state `t` with `n` photons, the Fock amplitude specification gives
+`perm(U[t | n,0,…,0]) = n! · ∏_k U[k,0]^{t_k}` (permanent of a matrix with `n` identical columns). -/
+theorem single_mode_amplitude {R : Type} [CommRing R] {m : ℕ} (U : Matrix (Fin m) (Fin m) R) (n : ℕ)
+    (t : List ℕ) (ht : t.sum = n) :
+    pamp U (single m n) t = (n.factorial : R) * powProd (fun k => entry U k 0) 0 t :=
+  pamp_single_mode U n t ht
+
+/-- **hence the probabilities are multinomial** in the squared moduli of column 0:
+`|perm|²/(n! ∏ t_k!) = n!/∏ t_k! · ∏_k (|U[k,0]|²)^{t_k}` (over `GQ = ℚ[i]`, the ring the driver runs) -/
+theorem single_mode_prob_multinomial {m : ℕ} (U : Matrix (Fin m) (Fin m) GQ) (n : ℕ) (t : List ℕ)
+    (ht : t.sum = n) :
+    Fock.prob U (single m n) t
+      = (n.factorial : ℚ) / (prodFact t : ℚ) * powProd (fun k => GQ.normSq (entry U k 0)) 0 t :=
+  prob_single_mode U n t ht
+
+/-- the same in any commutative star ring (ℂ in particular), without division:
+`|perm(U[t | n,0,…,0])|² = (n!)² ∏_k (|U[k,0]|²)^{t_k}` -/
+theorem single_mode_nsq {R : Type} [CommRing R] [StarRing R] {m : ℕ} (U : Matrix (Fin m) (Fin m) R)
+    (n : ℕ) (t : List ℕ) (ht : t.sum = n) :
+    nsq (pamp U (single m n) t)
+      = ((n.factorial : R) * n.factorial) * powProd (fun k => nsq (entry U k 0)) 0 t :=
+  nsq_pamp_single_mode U n t ht
+
+/-- **first column of `create_circuit().compute_unitary()`.** The circuit is modelled as the list of placed
+components `create_circuit` adds (`treeComps`: per layer the even/odd `PERM`, skipped when trivial, then a
+`BS` on every even mode) multiplied as `_compute_circuit_unitary` does. For every depth `L`, every pair of
+beam-splitter amplitudes `c = cos θ/2`, `s = i sin θ/2` in every commutative ring and every leaf `k < 2^L`:
+the entry `[k, 0]` is `c^zeros(k) · s^ones(k)` (the bits of `k` over `L` positions, first layer = most
+significant bit). -/
+theorem tree_circuit_first_column {R : Type} [CommRing R] (c s : R) (L : ℕ) (k : Fin (2 ^ L)) :
+    treeU c s L k ⟨0, Nat.two_pow_pos L⟩ = c ^ (L - onesL L k.val) * s ^ onesL L k.val := by
+  rw [treeU_col0, leafP_eq_pow]
+
+/-- **the first-column moduli are the path weights `r^zeros (1-r)^ones`**, whenever `|c|² = r` and
+`|s|² = 1 - r` (what `BS.r_to_theta` arranges: `cos²(θ/2) = r`) -/
+theorem tree_circuit_path_weights {R : Type} [CommRing R] [StarRing R] (c s r : R) (hc : nsq c = r)
+    (hs : nsq s = 1 - r) (L : ℕ) (k : Fin (2 ^ L)) :
+    nsq (treeU c s L k ⟨0, Nat.two_pow_pos L⟩) = r ^ (L - onesL L k.val) * (1 - r) ^ onesL L k.val := by
+  rw [treeU_col0, nsq_leafP, hc, hs, leafP_eq_pow]
+
+/-- **the leaf law is a list without repeated states, multinomial in the path weights**: for every
+reflectivity, depth, photon number and state `t`, the dictionary read of `treeOcc r L n` at `t` is
+`n!/∏t_k! · ∏_k (r^zeros(k) (1-r)^ones(k))^{t_k}` if `t` has `2^L` modes and `n` photons, and `0` otherwise. -/
+theorem leaf_law_closed {K : Type} [Field K] [LinearOrder K] [IsStrictOrderedRing K] (r : K) (L n : ℕ)
+    (t : List ℕ) :
+    (keys (treeOcc r L n)).Nodup ∧
+    prob (treeOcc r L n) t
+      = if t.length = 2 ^ L ∧ t.sum = n
+        then (n.factorial : K) / (prodFact t : K) * powProd (leafP r (1 - r) L) 0 t else 0 := by
+  refine ⟨treeOcc_nodup r L n, ?_⟩
+  have h := treeOcc_prob r L n t
+  have hp : (prodFact t : K) ≠ 0 := prodFact_ne_zero t
+  rw [eq_div_of_mul_eq hp h]
+  by_cases hc : t.length = 2 ^ L ∧ t.sum = n
+  · rw [if_pos hc, if_pos hc]; ring
+  · rw [if_neg hc, if_neg hc, zero_div]
+
+/-- **the former assumption, proved from the Fock specification.** Let `c, s ∈ ℚ[i]` be beam-splitter
+amplitudes with `|c|² = r`, `|s|² = 1 - r`, `U = create_circuit().compute_unitary()` (model `treeU`) of depth `L`.
+For every photon number `n` and every state `t` of `2^L` modes with `n` photons, the probability the Fock
+amplitude specification assigns to `t` for the input `|n,0,…,0>` IS the entry the model's leaf law
+`treeOcc r L n` holds at `t`; and `treeOcc` holds nothing at any other state. -/
+theorem bsTree_leaf_law_from_fock (c s : GQ) (r : ℚ) (hc : GQ.normSq c = r) (hs : GQ.normSq s = 1 - r)
+    (L n : ℕ) (t : List ℕ) :
+    (t.length = 2 ^ L ∧ t.sum = n →
+      Fock.prob (treeU c s L) (single (2 ^ L) n) t = prob (treeOcc r L n) t) ∧
+    (¬ (t.length = 2 ^ L ∧ t.sum = n) → prob (treeOcc r L n) t = 0) := by
+  constructor
+  · intro h
+    rw [(leaf_law_closed r L n t).2, if_pos h, prob_single_mode _ n t h.2]
+    congr 1
+    apply powProd_congr
+    intro k hk
+    rw [entry_treeU c s L (0 + k) (by omega), GQ_normSq_leafP, hc, hs]
+  · intro h
+    rw [(leaf_law_closed r L n t).2, if_neg h]
+
+/-- the same for EVERY reflectivity of an ordered field `K` (ℝ) realised in a commutative star ring `R` (ℂ)
+through a ring homomorphism `ι`: with `|c|² = ι r`, `|s|² = ι (1 - r)`,
+`|perm(U[t | n,0,…,0])|² = ι (n! · ∏t_k! · treeOcc r L n [t])` — i.e. `|perm|²/(n! ∏t_k!)` is the leaf law. -/
+theorem bsTree_leaf_law_from_fock_general {K : Type} [Field K] [LinearOrder K] [IsStrictOrderedRing K]
+    {R : Type} [CommRing R] [StarRing R] (ι : K →+* R) (c s : R) (r : K) (hc : nsq c = ι r)
+    (hs : nsq s = ι (1 - r)) (L n : ℕ) (t : List ℕ) (ht : t.length = 2 ^ L ∧ t.sum = n) :
+    nsq (pamp (treeU c s L) (single (2 ^ L) n) t)
+      = ι ((n.factorial : K) * (prodFact t : K) * prob (treeOcc r L n) t) := by
+  rw [nsq_pamp_single_mode _ n t ht.2, mul_assoc (n.factorial : K), mul_comm (prodFact t : K),
+    treeOcc_prob r L n t, if_pos ht, map_mul, map_mul, map_natCast, map_powProd]
+  rw [mul_assoc]
+  congr 2
+  apply powProd_congr
+  intro k hk
+  rw [entry_treeU c s L (0 + k) (by omega), nsq_leafP, hc, hs, map_leafP]
+
+end fockTree
 
 /-! ## non-vacuity and concrete values (evaluated by the kernel over ℚ) -/
 section examples
